@@ -48,9 +48,23 @@ def resolve_operands(nl, picks, count=None):
 HAND_STYLES = ['list', 'list', 'tuple', 'iter']
 
 
-def hand(labels, style):
-    """How the caller hands a number over to a function whose parameter is annotated tp.Iterable[Label]: a private list,
-    a tuple, or a one-shot iterator."""
+def _declares_iterable(fn) -> bool:
+    """True iff every label-collection parameter of `fn` is annotated as an Iterable (read from the code under test)."""
+    import inspect
+
+    try:
+        params = inspect.signature(fn).parameters.values()
+    except (TypeError, ValueError):
+        return False
+    anns = [str(p.annotation) for p in params if 'label' in p.name]
+    return bool(anns) and all('Iterable' in a for a in anns)
+
+
+def hand(labels, style, fn=None):
+    """How the caller hands a number over: a private list, a tuple, or - only where the function under test itself
+    declares tp.Iterable operands - a one-shot iterator."""
+    if style == 'iter' and (fn is None or not _declares_iterable(fn)):
+        style = 'tuple'
     if style == 'tuple':
         return tuple(labels)
     if style == 'iter':
